@@ -2,7 +2,8 @@ import TaskModel.Gen.PanicSites
 /-
 Decode.Sites — every expression on the load / compile / resolve / list path that can
 panic by itself (index, slice, unchecked type assertion, Must*, explicit panic), as
-extracted from the current source, with the reason it cannot fire.  A site that is not
+extracted from the current source (local variables printed as ‹their type›, so renaming them does not
+change a site), with the reason it cannot fire.  A site that is not
 in this table (a new unchecked index, say) breaks `all_panic_sites_discharged`.
 Reasons: `guard` = the enclosing code checks the bound first (quoted); `loop` = loop
 index below the length of the indexed slice; `split` = result of Split/SplitN/Cut on a
@@ -14,57 +15,54 @@ an even number of children and the loop steps by two (`mapping_pairs_in_range`);
 namespace TaskModel.Decode
 
 def discharged : List (String × String × String × String) := [
-  ("args:Get", "slice", "args[:doubleDashPos]", "guard: doubleDashPos = pflag.ArgsLenAtDash() is -1 (returned before) or ≤ len(args)"),
-  ("args:Get", "slice", "args[doubleDashPos:]", "guard: same"),
-  ("args:splitVar", "index", "pair[0]", "split: SplitN always returns at least one element"),
-  ("args:splitVar", "index", "pair[1]", "guard: only called for arguments that contain '=' (Parse checks strings.Contains(arg, \"=\")), SplitN(s, \"=\", 2) then has two elements"),
-  ("errors:TaskfileDecodeError.Error", "index", "te.Errors[0]", "guard: len(te.Errors) > 1 is handled before, yaml.TypeError has at least one entry"),
-  ("errors:extractTypeErrorMessage", "index", "matches[1]", "guard: len(matches) == 2 checked"),
-  ("internal/deepcopy:Slice", "index", "c[i]", "loop: c has the length of the ranged slice"),
-  ("internal/deepcopy:TraverseStringsFunc", "assert", "copy.Interface().(T)", "lib: copy is reflect.New of T's type, Elem has dynamic type T"),
-  ("internal/env:GetEnviron", "index", "keyVal[0]", "split: SplitN returns at least one element"),
-  ("internal/env:GetEnviron", "index", "keyVal[1]", "lib: os.Environ entries have the form key=value"),
-  ("internal/execext:ExpandLiteral", "index", "words[0]", "guard: len(words) == 0 returns before"),
-  ("internal/output:prefixWriter.writeLine", "index", "PrefixColorSequence[idx%uint(len(PrefixColorSequence))]", "const: modulo the length of a non-empty table"),
-  ("internal/sort:AlphaNumericWithRootTasksFirst", "index", "items[i]", "loop: indices handed to sort.Slice's less function"),
-  ("internal/sort:AlphaNumericWithRootTasksFirst", "index", "items[j]", "loop: same"),
-  ("internal/templater:ReplaceGlobs", "index", "new[i]", "loop: new has the length of the ranged slice"),
-  ("internal/version:getCommit", "slice", "setting.Value[:7]", "guard: len(setting.Value) > 7 branch; vcs.revision is a full hash"),
-  ("task:Compiler.getSpecialVars", "index", "os.Args[0]", "lib: a process has a program name"),
-  ("task:Executor.GetTask", "index", "matchingTasks[0]", "guard: len(matchingTasks) > 0"),
-  ("task:Executor.GetTaskList", "index", "tasks[i]", "loop"),
-  ("task:Executor.RunTask", "index", "t.Cmds[i]", "loop: i ranges over t.Cmds"),
-  ("task:Executor.ToEditorOutput", "index", "o.Tasks[i]", "loop: o.Tasks has len(tasks) elements"),
-  ("task:Executor.ToEditorOutput", "index", "tasks[i]", "loop"),
-  ("task:Executor.compiledTask", "index", "keys[i]", "guard: len(keys) > 0 only when keys was filled in step with list (map loop variable)"),
-  ("task:Executor.runCommand", "index", "t.Cmds[i]", "loop: called with an index of t.Cmds"),
-  ("task:Executor.runDeferred", "index", "t.Cmds[i]", "loop: same"),
-  ("task:asAnySlice", "index", "ret[i]", "loop"),
-  ("task:itemsFromFor", "index", "glist[i]", "loop"),
-  ("taskfile/ast:Includes.UnmarshalYAML", "index", "node.Content[i+1]", "yaml"),
-  ("taskfile/ast:Includes.UnmarshalYAML", "index", "node.Content[i]", "yaml"),
-  ("taskfile/ast:Matrix.UnmarshalYAML", "index", "node.Content[i+1]", "yaml"),
-  ("taskfile/ast:Matrix.UnmarshalYAML", "index", "node.Content[i]", "yaml"),
-  ("taskfile/ast:Platform.parsePlatform", "index", "splitValues[0]", "guard: switch on len(splitValues)"),
-  ("taskfile/ast:Platform.parsePlatform", "index", "splitValues[1]", "guard: case 2"),
-  ("taskfile/ast:Task.WildcardMatch", "must", "regexp.MustCompile(regexStr)", "lib: the pattern is ^ + QuoteMeta(name) with \\\\* replaced by (.*) + $ — always a valid expression"),
-  ("taskfile/ast:Task.WildcardMatch", "slice", "wildcards[1:]", "guard: len(wildcards) == 0 returns before"),
-  ("taskfile/ast:TaskfileGraph.Merge", "index", "hashes[0]", "lib: a graph with a root vertex sorts to a non-empty list"),
-  ("taskfile/ast:TaskfileGraph.Merge", "index", "hashes[i]", "loop: i from len-1 down to 1"),
-  ("taskfile/ast:Tasks.Merge", "index", "task.Aliases[i]", "loop"),
-  ("taskfile/ast:Tasks.UnmarshalYAML", "index", "node.Content[i+1]", "yaml"),
-  ("taskfile/ast:Tasks.UnmarshalYAML", "index", "node.Content[i]", "yaml"),
-  ("taskfile/ast:Var.UnmarshalYAML", "index", "node.Content[0]", "guard: len(node.Content) == 0 returns a decode error before"),
-  ("taskfile/ast:Vars.UnmarshalYAML", "index", "node.Content[i+1]", "yaml"),
-  ("taskfile/ast:Vars.UnmarshalYAML", "index", "node.Content[i]", "yaml"),
-  ("taskfile:NewSnippet", "slice", "linesHighlighted[snippet.start-1 : snippet.end]", "guard: start and end are clamped to both line lists (snippet_bounds)"),
-  ("taskfile:NewSnippet", "slice", "linesRaw[snippet.start-1 : snippet.end]", "guard: same"),
-  ("taskfile:Reader.include", "assert", "edge.Properties.Data.([]*ast.Include)", "lib: the only writer of edge data stores []*ast.Include"),
-  ("taskfile:Reader.include", "index", "edges[i]", "loop: edges has Includes.Len() slots, i counts the includes"),
-  ("taskfile:Snippet.String", "index", "s.linesRaw[i]", "loop: i ranges over linesHighlighted, which has the same length (both sliced with the same bounds)"),
-  ("taskfile:getScheme", "index", "strings.Split(u.Path, \"//\")[0]", "split: element 0 always exists"),
-  ("taskfile:getScheme", "slice", "uri[:i]", "guard: i := strings.Index(uri, \"://\"); i != -1"),
-  ("taskfile:init", "panic", "panic(err)", "init: chroma style registration with a constant definition")]
+  ("args:Get", "slice", "‹[]string›[‹int›:]", "guard: doubleDashPos = pflag.ArgsLenAtDash() is -1 (returned before) or ≤ len(args)"),
+  ("args:Get", "slice", "‹[]string›[:‹int›]", "guard: doubleDashPos = pflag.ArgsLenAtDash() is -1 (returned before) or ≤ len(args)"),
+  ("args:splitVar", "index", "‹[]string›[0]", "split: SplitN always returns at least one element"),
+  ("args:splitVar", "index", "‹[]string›[1]", "guard: only called for arguments that contain '=' (Parse checks strings.Contains(arg, \"=\")), SplitN(s, \"=\", 2) then has two elements"),
+  ("errors:TaskfileDecodeError.Error", "index", "‹*yaml.TypeError›.Errors[0]", "guard: len(te.Errors) > 1 is handled before, yaml.TypeError has at least one entry"),
+  ("errors:extractTypeErrorMessage", "index", "‹[]string›[1]", "guard: len(matches) == 2 checked"),
+  ("internal/deepcopy:Slice", "index", "‹[]T›[‹int›]", "loop: c has the length of the ranged slice"),
+  ("internal/deepcopy:TraverseStringsFunc", "assert", "‹reflect.Value›.Interface().(T)", "lib: copy is reflect.New of T's type, Elem has dynamic type T"),
+  ("internal/env:GetEnviron", "index", "‹[]string›[0]", "split: SplitN returns at least one element"),
+  ("internal/env:GetEnviron", "index", "‹[]string›[1]", "lib: os.Environ entries have the form key=value"),
+  ("internal/execext:ExpandLiteral", "index", "‹[]*syntax.Word›[0]", "guard: len(words) == 0 returns before"),
+  ("internal/output:prefixWriter.writeLine", "index", "PrefixColorSequence[‹uint›%uint(len(PrefixColorSequence))]", "const: modulo the length of a non-empty table"),
+  ("internal/sort:AlphaNumericWithRootTasksFirst", "index", "‹[]string›[‹int›]", "loop: indices handed to sort.Slice's less function"),
+  ("internal/version:getCommit", "slice", "‹debug.BuildSetting›.Value[:7]", "guard: len(setting.Value) > 7 branch; vcs.revision is a full hash"),
+  ("task:Compiler.getSpecialVars", "index", "os.‹[]string›[0]", "lib: a process has a program name"),
+  ("task:Executor.GetTask", "index", "‹[]*task.MatchingTask›[0]", "guard: len(matchingTasks) > 0"),
+  ("task:Executor.GetTaskList", "index", "‹[]*ast.Task›[‹int›]", "loop"),
+  ("task:Executor.RunTask", "index", "‹*ast.Task›.Cmds[‹int›]", "loop: i ranges over t.Cmds"),
+  ("task:Executor.ToEditorOutput", "index", "‹*editors.Taskfile›.Tasks[‹int›]", "loop: o.Tasks has len(tasks) elements"),
+  ("task:Executor.ToEditorOutput", "index", "‹[]*ast.Task›[‹int›]", "loop"),
+  ("task:Executor.compiledTask", "index", "‹[]string›[‹int›]", "guard: len(keys) > 0 only when keys was filled in step with list (map loop variable)"),
+  ("task:Executor.runCommand", "index", "‹*ast.Task›.Cmds[‹int›]", "loop: called with an index of t.Cmds"),
+  ("task:Executor.runDeferred", "index", "‹*ast.Task›.Cmds[‹int›]", "loop: same"),
+  ("task:asAnySlice", "index", "‹[]any›[‹int›]", "loop"),
+  ("task:itemsFromFor", "index", "‹[]string›[‹int›]", "loop"),
+  ("taskfile/ast:Includes.UnmarshalYAML", "index", "‹*yaml.Node›.Content[‹int›+1]", "yaml"),
+  ("taskfile/ast:Includes.UnmarshalYAML", "index", "‹*yaml.Node›.Content[‹int›]", "yaml"),
+  ("taskfile/ast:Matrix.UnmarshalYAML", "index", "‹*yaml.Node›.Content[‹int›+1]", "yaml"),
+  ("taskfile/ast:Matrix.UnmarshalYAML", "index", "‹*yaml.Node›.Content[‹int›]", "yaml"),
+  ("taskfile/ast:Platform.parsePlatform", "index", "‹[]string›[0]", "guard: switch on len(splitValues)"),
+  ("taskfile/ast:Platform.parsePlatform", "index", "‹[]string›[1]", "guard: case 2"),
+  ("taskfile/ast:Task.WildcardMatch", "must", "regexp.MustCompile(‹string›)", "lib: the pattern is ^ + QuoteMeta(name) with \\\\* replaced by (.*) + $ — always a valid expression"),
+  ("taskfile/ast:Task.WildcardMatch", "slice", "‹[]string›[1:]", "guard: len(wildcards) == 0 returns before"),
+  ("taskfile/ast:TaskfileGraph.Merge", "index", "‹[]string›[0]", "lib: a graph with a root vertex sorts to a non-empty list"),
+  ("taskfile/ast:TaskfileGraph.Merge", "index", "‹[]string›[‹int›]", "loop: i from len-1 down to 1"),
+  ("taskfile/ast:Tasks.Merge", "index", "‹*ast.Task›.Aliases[‹int›]", "loop"),
+  ("taskfile/ast:Tasks.UnmarshalYAML", "index", "‹*yaml.Node›.Content[‹int›+1]", "yaml"),
+  ("taskfile/ast:Tasks.UnmarshalYAML", "index", "‹*yaml.Node›.Content[‹int›]", "yaml"),
+  ("taskfile/ast:Var.UnmarshalYAML", "index", "‹*yaml.Node›.Content[0]", "guard: len(node.Content) == 0 returns a decode error before"),
+  ("taskfile/ast:Vars.UnmarshalYAML", "index", "‹*yaml.Node›.Content[‹int›+1]", "yaml"),
+  ("taskfile/ast:Vars.UnmarshalYAML", "index", "‹*yaml.Node›.Content[‹int›]", "yaml"),
+  ("taskfile:NewSnippet", "slice", "‹[]string›[‹*taskfile.Snippet›.start-1 : ‹*taskfile.Snippet›.end]", "guard: start and end are clamped to both line lists (snippet_bounds)"),
+  ("taskfile:Reader.include", "assert", "‹graph.Edge[*ast.TaskfileVertex]›.Properties.Data.([]*ast.Include)", "lib: the only writer of edge data stores []*ast.Include"),
+  ("taskfile:Reader.include", "index", "‹[]*taskfile.includeEdge›[‹int›]", "loop: edges has Includes.Len() slots, i counts the includes"),
+  ("taskfile:Snippet.String", "index", "‹*taskfile.Snippet›.linesRaw[‹int›]", "loop: i ranges over linesHighlighted, which has the same length (both sliced with the same bounds)"),
+  ("taskfile:getScheme", "index", "strings.Split(‹*url.URL›.Path, \"//\")[0]", "split: element 0 always exists"),
+  ("taskfile:getScheme", "slice", "‹string›[:‹int›]", "guard: i := strings.Index(uri, \"://\"); i != -1"),
+  ("taskfile:init", "panic", "panic(‹error›)", "init: chroma style registration with a constant definition")]
 
 def isDischarged (s : String × String × String) : Bool :=
   discharged.any (fun d => d.1 == s.1 && d.2.1 == s.2.1 && d.2.2.1 == s.2.2)
